@@ -59,9 +59,13 @@ pub fn guarded<R>(f: impl FnOnce() -> R) -> Result<R, (String, String)> {
     match catch_unwind(AssertUnwindSafe(f)) {
         Ok(r) => Ok(r),
         Err(e) => {
-            let info = LAST_PANIC
+            let mut info = LAST_PANIC
                 .with(|p| p.borrow_mut().take())
                 .unwrap_or_else(|| ("<unknown panic>".into(), String::new()));
+            // Bevy appends a backtrace to some messages; the first line identifies the panic.
+            if let Some(first) = info.0.lines().next() {
+                info.0 = first.chars().take(400).collect();
+            }
             if info.1.contains("/verif/mc/") || info.1.starts_with("src/") {
                 std::panic::resume_unwind(e);
             }
@@ -254,6 +258,8 @@ pub struct Cfg {
     pub clients: Vec<usize>,
     /// Register the event vocabulary of `events.rs`.
     pub events: bool,
+    /// Clients whose app is built with one extra replication rule (a different protocol).
+    pub mismatch: Vec<usize>,
 }
 
 impl Default for Cfg {
@@ -273,11 +279,20 @@ impl Default for Cfg {
             timeout_ms: 10_000,
             clients: vec![1200],
             events: false,
+            mismatch: vec![],
         }
     }
 }
 
 pub fn build_app(cfg: &Cfg) -> App {
+    build_app_with(cfg, false)
+}
+
+/// Not part of the server's protocol.
+#[derive(Component, Serialize, Deserialize, Clone, PartialEq, Debug)]
+pub struct Extra(pub u8);
+
+pub fn build_app_with(cfg: &Cfg, extra_rule: bool) -> App {
     let mut app = App::new();
     let tick_policy = match cfg.tick {
         TickWiring::Manual => TickPolicy::Manual,
@@ -331,6 +346,9 @@ pub fn build_app(cfg: &Cfg) -> App {
     }
     if cfg.events {
         crate::events::register(&mut app);
+    }
+    if extra_rule {
+        app.replicate::<Extra>();
     }
     app.finish();
     app.cleanup();
@@ -474,8 +492,20 @@ impl Op {
 // The simulation
 // ------------------------------------------------------------------------------------------
 
+#[derive(Clone, Debug)]
+pub enum Action {
+    Connect(usize),
+    Op(Op),
+    ServerFrame(bool),
+    ToServer(usize, usize, Sel),
+    ToClient(usize, usize, Sel),
+    ClientFrame(usize),
+}
+
 pub struct Sim {
     pub cfg: Cfg,
+    /// Semantic log of everything the harness did (used for twin executions).
+    pub actions: Vec<Action>,
     pub server: App,
     pub clients: Vec<ClientSide>,
     pub server_channels: Vec<Channel>,
@@ -512,6 +542,7 @@ impl Sim {
         let client_channels = channels.client_channels().to_vec();
         let mut sim = Sim {
             cfg: cfg.clone(),
+            actions: Vec::new(),
             server,
             clients: Vec::new(),
             server_channels,
@@ -541,8 +572,8 @@ impl Sim {
             .world_mut()
             .resource_mut::<RepliconServer>()
             .set_running(true);
-        for &max_size in &cfg.clients {
-            let app = build_app(cfg);
+        for (i, &max_size) in cfg.clients.iter().enumerate() {
+            let app = build_app_with(cfg, cfg.mismatch.contains(&i));
             sim.clients.push(ClientSide {
                 app,
                 conn: None,
@@ -564,6 +595,7 @@ impl Sim {
     // -- connections -----------------------------------------------------------------------
 
     pub fn connect(&mut self, c: usize) {
+        self.actions.push(Action::Connect(c));
         let max_size = self.clients[c].max_size;
         let conn = self
             .server
@@ -730,6 +762,7 @@ impl Sim {
 
     pub fn apply_op(&mut self, op: Op) {
         debug_assert!(self.enabled(op), "op {op:?} applied while disabled");
+        self.actions.push(Action::Op(op));
         let v = self.next_ver();
         match op {
             Op::Nop => {}
@@ -898,6 +931,7 @@ impl Sim {
 
     /// Runs one server frame. `tick`: under manual wiring, increment the tick before the frame.
     pub fn server_frame(&mut self, tick: bool) -> Result<(), Violation> {
+        self.actions.push(Action::ServerFrame(tick));
         let before = self.server_tick();
         if tick && self.cfg.tick == TickWiring::Manual {
             self.server
@@ -971,6 +1005,9 @@ impl Sim {
     }
 
     pub fn deliver_to_client(&mut self, c: usize, ch: usize, sel: &Sel) -> usize {
+        if !self.clients[c].s2c[ch].is_empty() {
+            self.actions.push(Action::ToClient(c, ch, sel.clone()));
+        }
         let msgs = take(&mut self.clients[c].s2c[ch], sel);
         let n = msgs.len();
         let mut client = self.clients[c]
@@ -984,6 +1021,9 @@ impl Sim {
     }
 
     pub fn deliver_to_server(&mut self, c: usize, ch: usize, sel: &Sel) -> usize {
+        if !self.clients[c].c2s[ch].is_empty() {
+            self.actions.push(Action::ToServer(c, ch, sel.clone()));
+        }
         let msgs = take(&mut self.clients[c].c2s[ch], sel);
         let n = msgs.len();
         let Some(conn) = self.clients[c].conn else {
@@ -997,6 +1037,7 @@ impl Sim {
     }
 
     pub fn client_frame(&mut self, c: usize) -> Result<(), Violation> {
+        self.actions.push(Action::ClientFrame(c));
         self.transitions += 1;
         let cl = &mut self.clients[c];
         cl.frames += 1;
@@ -1082,6 +1123,168 @@ impl Sim {
             }
         }
         view
+    }
+
+    /// Re-executes a recorded action log on fresh Apps, leaving out the operations selected by
+    /// `skip`, and returns the views of client `observe` after each of its frames.
+    pub fn run_twin(
+        cfg: &Cfg,
+        actions: &[Action],
+        skip: &dyn Fn(&Op) -> bool,
+        observe: usize,
+    ) -> Result<Vec<ClientView>, Violation> {
+        let mut twin = Sim::new(cfg);
+        let mut views = Vec::new();
+        for a in actions {
+            match a {
+                Action::Connect(c) => twin.connect(*c),
+                Action::Op(op) => {
+                    if !skip(op) && twin.enabled(*op) {
+                        twin.apply_op(*op);
+                    } else {
+                        // keep value versions aligned with the original execution
+                        twin.ver = twin.ver.wrapping_add(1);
+                    }
+                }
+                Action::ServerFrame(t) => twin.server_frame(*t)?,
+                Action::ToServer(c, ch, sel) => {
+                    twin.deliver_to_server(*c, *ch, &twin.clamp(sel, twin.clients[*c].c2s[*ch].len()));
+                }
+                Action::ToClient(c, ch, sel) => {
+                    twin.deliver_to_client(*c, *ch, &twin.clamp(sel, twin.clients[*c].s2c[*ch].len()));
+                }
+                Action::ClientFrame(c) => {
+                    twin.client_frame(*c)?;
+                    if *c == observe {
+                        views.push(twin.client_view(*c));
+                    }
+                }
+            }
+        }
+        Ok(views)
+    }
+
+    fn clamp(&self, sel: &Sel, n: usize) -> Sel {
+        match sel {
+            Sel::Indices(ix) => Sel::Indices(ix.iter().copied().filter(|&i| i < n).collect()),
+            other => other.clone(),
+        }
+    }
+
+    /// Convergence oracle (C01): client `c`'s view equals the visible replicated server state.
+    /// The violation's property is left empty (the calling cell owns it).
+    pub fn converged(
+        &self,
+        c: usize,
+        server: &Snap,
+        view: &ClientView,
+        allow_orphans: bool,
+    ) -> Result<(), Violation> {
+        let expected: BTreeMap<u64, &Comps> = server
+            .iter()
+            .filter(|(e, _)| self.visible_now(c, **e))
+            .map(|(e, comps)| (*e, comps))
+            .collect();
+        for (e, comps) in &expected {
+            let Some(ce) = view.ents.get(e) else {
+                return Err(Violation::new(
+                    "",
+                    "missing-entity",
+                    format!(
+                        "after closure client c{c} lacks server entity {} {}; client view: {}",
+                        fmt_bits(*e),
+                        show_comps(comps),
+                        view.show()
+                    ),
+                )
+                .feat("kind:missing-entity"));
+            };
+            if !ce.marked {
+                return Err(Violation::new(
+                    "",
+                    "unmarked-entity",
+                    format!(
+                        "after closure client c{c} entity for {} has no Replicated marker",
+                        fmt_bits(*e)
+                    ),
+                ));
+            }
+            let skeys: BTreeSet<u8> = comps.keys().copied().collect();
+            let ckeys: BTreeSet<u8> = ce.comps.keys().copied().collect();
+            if skeys != ckeys {
+                let diff: Vec<_> = skeys
+                    .symmetric_difference(&ckeys)
+                    .map(|t| ctag_name(*t))
+                    .collect();
+                return Err(Violation::new(
+                    "",
+                    "component-set-mismatch",
+                    format!(
+                        "after closure entity {}: server has {} client c{c} has {}",
+                        fmt_bits(*e),
+                        show_comps(comps),
+                        show_comps(&ce.comps)
+                    ),
+                )
+                .feat(format!("comp:{}", diff.join("+"))));
+            }
+            for (tag, sv) in comps.iter() {
+                if *tag == TO {
+                    continue;
+                }
+                if ce.comps.get(tag) != Some(sv) {
+                    return Err(Violation::new(
+                        "",
+                        "value-mismatch",
+                        format!(
+                            "after closure entity {} {}: server {} client c{c} {}",
+                            fmt_bits(*e),
+                            ctag_name(*tag),
+                            sv.show(),
+                            ce.comps[tag].show()
+                        ),
+                    )
+                    .feat(format!("comp:{}", ctag_name(*tag))));
+                }
+            }
+        }
+        for e in view.ents.keys() {
+            if !expected.contains_key(e) {
+                return Err(Violation::new(
+                    "",
+                    "extra-entity",
+                    format!(
+                        "after closure client c{c} still holds {} which is not a visible replicated server entity; server: {} client: {}",
+                        fmt_bits(*e),
+                        show_snap(server),
+                        view.show()
+                    ),
+                )
+                .feat("kind:extra-entity"));
+            }
+        }
+        if !view.dead_mapped.is_empty() {
+            return Err(Violation::new(
+                "",
+                "dead-mapped-entity",
+                format!(
+                    "after closure client c{c} maps {:?} to dead entities",
+                    view.dead_mapped
+                ),
+            ));
+        }
+        if !allow_orphans && !view.unmapped_replicated.is_empty() {
+            return Err(Violation::new(
+                "",
+                "extra-entity",
+                format!(
+                    "after closure client c{c} holds {} replicated entities outside the entity map",
+                    view.unmapped_replicated.len()
+                ),
+            )
+            .feat("kind:unmapped"));
+        }
+        Ok(())
     }
 
     pub fn in_flight_digest(&self) -> u64 {
